@@ -360,11 +360,19 @@ PROPS["C01"] = dict(
               "SqlVerif.Props.C01.unary_minus_minus_lexsafe", "SqlVerif.Props.C01.ilike_any_escape_spaced",
               "SqlVerif.Props.C01Query.query_script_reparse_partial",
               "SqlVerif.Props.C01Query.fixpoint_instances",
-              "SqlVerif.Props.C01Query.all_as_identifier_not_fixpoint"],
+              "SqlVerif.Props.C01Query.all_as_identifier_not_fixpoint",
+              "SqlVerif.Props.C01Query.query_norm_invariant",
+              "SqlVerif.Props.C01Query.query_printer_emits_normal_forms",
+              "SqlVerif.Props.C01Query.query_reparse_fixpoint_sub",
+              "SqlVerif.Props.C01Query.query_reparse_fixpoint_partial",
+              "SqlVerif.Props.C01Query.query_reparse_fixpoint_normal",
+              "SqlVerif.Props.C01Query.query_script_fixpoint_partial",
+              "SqlVerif.Props.C01Query.sampleN_hyps",
+              "SqlVerif.Props.C01Query.rewritten_shapes_reparse_to_norm"],
     corr=["exprprint", "chains", "queries"],
     unique_output={"exprprint": False, "chains": False, "queries": False},
     oracle=["C01"],
-    level_text="Partial. Proved in Lean on the executable models of the Pratt expression parser and of Display for the same expression fragment (identifiers in every quoting style, compound identifiers, numbers, '..' and \"..\" strings, placeholders, TRUE/FALSE/NULL, parentheses, NOT / unary sign / PostgreSQL prefix operators, every regular binary operator incl. MySQL DIV and custom operators, ANY/ALL/SOME, the IS family, IS [NOT] DISTINCT FROM, [NOT] IN (list), [NOT] BETWEEN, [NOT] LIKE/ILIKE/SIMILAR TO/RLIKE/REGEXP with ESCAPE, AT TIME ZONE, ::type, postfix !), for EVERY configuration record, fuel, recursion limit and token list: (norm_invariant) on two token lists with the same observable image - of a word only its keyword and the leading-underscore flag, == and = one operator - the parser takes the same branches, consumes equally many tokens and builds trees with the same image (simultaneous fuel induction over the mutual block, one lemma per head function); (printer_emits_normal_forms) every token the parser stored in a tree is, token by token, the token the printer emits for it up to keyword spelling (second fuel induction); hence (reparse_fixpoint_partial) if parse_expr accepts the whole token list and returns a printable tree e, parse_expr on the printed token list, with the SAME fuel and limit, returns e with its tokens in printed normal form, a tree whose S-expression - what the real AST holds - is that of e; (print_idempotent_partial) the tree read back prints to the same tokens and the same text. Normal forms mirrored from the code: == prints =, keywords and type names print in table spelling, TRUE/FALSE in lower case, an ESCAPE operand prints as '..' without escaping, unary + - ~ @ |/ ||/ !! are glued to their operand. The theorem is at TOKEN level; that the printed TEXT lexes back to the printed tokens is decided by the exprprint stream and the oracle; two former counterexamples (`- - a` printed `--a`, a comment; `a ILIKE ANY b ESCAPE '!'` printed `ANYb`) were repaired in /repo with fix: commits and are kept as positive kernel-checked witnesses through the tokenizer model. Ties: stream exprprint (real parse_expr(tokens).to_string() vs model text, byte for byte, on every atom form x prefix operators x parentheses, every operator spelling, all ordered operator pairs, random nested expressions, 13 dialects; and real tokenizer on the printed text vs model printed tokens wherever the real round trip holds, the other lines being counted per root node as lex-unsafe) and stream chains (parser). The whole grammar (every statement kind, text level, 13 dialects x 4 option sets) is decided by the round-trip oracle on the real code: parse(print a) == [a], print idempotent, joined script. Query fragment (Model/Query.lean + Model/QueryPrint.lean: parse_statement for query statements, parse_query, set-operation climbing over real operands, parse_select with projection / FROM with aliases, joins and derived tables / WHERE / GROUP BY / HAVING, ORDER BY, LIMIT / OFFSET incl. the comma form; tied by stream queries: S-expression of the real tree and real to_string() text for every accepted line, 13 dialects): proved for every configuration that printed statements which re-parse one by one re-parse as a script to the same trees (query_script_reparse_partial, from the locality theorem of C11); the statement-level fixpoint itself is a def (QueryReparseFixpoint), decided by kernel evaluation on instances of every normalisation Display performs and by the reparse statistics of the stream; inside the fragment the current code is not a fixpoint for `SELECT ALL ALL a` (prints `SELECT ALL AS a`), kept as a kernel-checked witness.",
+    level_text="Partial. Proved in Lean on the executable models of the Pratt expression parser and of Display for the same expression fragment (identifiers in every quoting style, compound identifiers, numbers, '..' and \"..\" strings, placeholders, TRUE/FALSE/NULL, parentheses, NOT / unary sign / PostgreSQL prefix operators, every regular binary operator incl. MySQL DIV and custom operators, ANY/ALL/SOME, the IS family, IS [NOT] DISTINCT FROM, [NOT] IN (list), [NOT] BETWEEN, [NOT] LIKE/ILIKE/SIMILAR TO/RLIKE/REGEXP with ESCAPE, AT TIME ZONE, ::type, postfix !), for EVERY configuration record, fuel, recursion limit and token list: (norm_invariant) on two token lists with the same observable image - of a word only its keyword and the leading-underscore flag, == and = one operator - the parser takes the same branches, consumes equally many tokens and builds trees with the same image (simultaneous fuel induction over the mutual block, one lemma per head function); (printer_emits_normal_forms) every token the parser stored in a tree is, token by token, the token the printer emits for it up to keyword spelling (second fuel induction); hence (reparse_fixpoint_partial) if parse_expr accepts the whole token list and returns a printable tree e, parse_expr on the printed token list, with the SAME fuel and limit, returns e with its tokens in printed normal form, a tree whose S-expression - what the real AST holds - is that of e; (print_idempotent_partial) the tree read back prints to the same tokens and the same text. Normal forms mirrored from the code: == prints =, keywords and type names print in table spelling, TRUE/FALSE in lower case, an ESCAPE operand prints as '..' without escaping, unary + - ~ @ |/ ||/ !! are glued to their operand. The theorem is at TOKEN level; that the printed TEXT lexes back to the printed tokens is decided by the exprprint stream and the oracle; two former counterexamples (`- - a` printed `--a`, a comment; `a ILIKE ANY b ESCAPE '!'` printed `ANYb`) were repaired in /repo with fix: commits and are kept as positive kernel-checked witnesses through the tokenizer model. Ties: stream exprprint (real parse_expr(tokens).to_string() vs model text, byte for byte, on every atom form x prefix operators x parentheses, every operator spelling, all ordered operator pairs, random nested expressions, 13 dialects; and real tokenizer on the printed text vs model printed tokens wherever the real round trip holds, the other lines being counted per root node as lex-unsafe) and stream chains (parser). The whole grammar (every statement kind, text level, 13 dialects x 4 option sets) is decided by the round-trip oracle on the real code: parse(print a) == [a], print idempotent, joined script. Query fragment (Model/Query.lean + Model/QueryPrint.lean: parse_statement for query statements, parse_query, set-operation climbing over real operands, parse_select with projection / FROM with aliases, joins and derived tables / WHERE / GROUP BY / HAVING, ORDER BY, LIMIT / OFFSET incl. the comma form; tied by stream queries: S-expression of the real tree and real to_string() text for every accepted line, 13 dialects): proved for every configuration that printed statements which re-parse one by one re-parse as a script to the same trees (query_script_reparse_partial, from the locality theorem of C11); the statement-level fixpoint is now a THEOREM over all inputs for the shapes Display prints token by token: (query_norm_invariant) on two token lists with the same image qc - identifiers, numbers, strings literally; of a keyword token its keyword, quote style and whether it is spelled `from` / starts with `_` / contains `.`; == and = one operator - every function of the query model takes the same branches and builds trees with the same image (one lemma per function, fuel induction over the mutual block); (query_printer_emits_normal_forms) the printed tokens are the consumed ones up to qc; hence (query_reparse_fixpoint_partial, _sub with a continuation, query_script_fixpoint_partial for scripts) for EVERY dialect record, option value, fuel, limit and token list: if parse_statement accepts ts completely with tree q, then parse_statement on the printed tokens, with the SAME fuel and limit, returns q.norm - q with every stored token replaced by the printed one - and q.norm has the S-expression of q. Side conditions, all decidable: q.printable (every expression printable in the sense above; LIMIT/OFFSET in printing order), q.normal (an alias is absent or written with AS; no SELECT ALL; joins without INNER/OUTER; no trailing comma; at most LIMIT e then OFFSET e), and LexOk ts (every keyword token is as a lexer makes it: unquoted, no leading underscore, no period, spelled `from` up to case exactly when it is FROM - the parser inspects word spellings in `SELECT from` and in BigQuery table names). For the shapes Display re-writes (alias without AS, SELECT ALL, INNER/OUTER, trailing commas, LIMIT ALL, OFFSET..LIMIT, LIMIT a, b) the fixpoint stays a def (QueryReparseFixpoint), decided by kernel evaluation (fixpoint_instances, rewritten_shapes_reparse_to_norm: they too re-parse to q.norm) and by the reparse statistics of the stream; inside the fragment the current code is not a fixpoint for `SELECT ALL ALL a` (prints `SELECT ALL AS a`), kept as a kernel-checked witness.",
     level_note="Trusted: Lean kernel (axioms propext, Classical.choice, Quot.sound); the hand-written parser and printer models (validated by the differentials on generated inputs only); Gen tables as dumped from the running crate. printable excludes four shapes whose printed token list is not a token-by-token image of the input (REGEXP RLIKE prints one operator, an ESCAPE operand written as a bare word or \"..\" prints as '..', :\"x\" loses its quotes, keyword tokens spelled with a leading underscore, which no lexer produces); they re-parse to the same S-expression (checked by evaluation in the theorem file and by the streams) but are outside the theorem. Not a theorem: LexSafe (text -> tokens) for the fragment - found failing by stream exprprint (lex-unsafe counts) and by the oracle; queries, statements, data types beyond the bare keyword (C18), functions, CASE/CAST, subqueries: oracle only. FullStatement is kept as a definition.",
     technique="Lean 4 proofs (parser respects a token equivalence: simultaneous fuel induction with per-head-function lemmas; printer emits the stored tokens up to that equivalence; uniqueness of a tree given its image and its yield) + kernel-decided text-level counterexamples through the tokenizer model + Display differential (text and printed tokens) + whole-grammar round-trip oracle",
     trusted_base=EXPRPRINT_TB,
@@ -418,6 +426,25 @@ PROPS["C18"] = dict(
     assumptions=["Gen/Keywords.lean, Gen/Reserved.lean and Gen/Dialects.lean are the tables of the crate as built from /repo's working tree",
                  "the input of the parser model is the non-whitespace token list the real tokenizer produced"],
 )
+
+# ---- statement fragment (Model/Dml.lean + DmlPrint.lean, stream `dml`): INSERT / UPDATE / DELETE / CREATE TABLE / DROP TABLE / VALUES
+PROPS["C11"]["lean"].append("SqlVerif.Props.C11Dml")
+PROPS["C11"]["namespaces"].append("SqlVerif.Props.C11Dml")
+PROPS["C11"]["required"] += ["SqlVerif.Props.C11Dml.stmt_yield", "SqlVerif.Props.C11Dml.stmt_semi",
+                             "SqlVerif.Props.C11Dml.stmt_local", "SqlVerif.Props.C11Dml.script_concat_dml"]
+PROPS["C11"]["corr"].append("dml")
+PROPS["C11"]["unique_output"]["dml"] = False
+PROPS["C11"]["level_text"] += " The same is proved for a core of the DML/DDL statements (Model/Dml.lean: parse_statement dispatch, parse_insert generic path incl. VALUES / DEFAULT VALUES / RETURNING, parse_update with its single TableWithJoins and FROM, parse_delete, parse_create_table with the ad-hoc parse_columns loop, parse_column_def and ten column options over the non-recursive data types of the data-type model, parse_drop for tables; tied to the real parse_statements by stream dml on real token lists, 13 dialects, both option values): stmt_yield (a successful statement parse consumes exactly the token yield of its tree), stmt_local (a statement text accepted completely is parsed to the same tree in front of `;`: every function of the statement model, and the flat arms of the data-type model, repeat a successful run when `; ...` is appended) and script_concat_dml (the loop theorem instantiated with this statement parser)."
+PROPS["C13"]["lean"].append("SqlVerif.Props.C13Dml")
+PROPS["C13"]["namespaces"].append("SqlVerif.Props.C13Dml")
+PROPS["C13"]["required"] += ["SqlVerif.Props.C13Dml.assignment_local", "SqlVerif.Props.C13Dml.valuesRow_local",
+                             "SqlVerif.Props.C13Dml.insertColumn_local", "SqlVerif.Props.C13Dml.name_local",
+                             "SqlVerif.Props.C13Dml.columnDef_local",
+                             "SqlVerif.Props.C13Dml.assignments_trailing_comma", "SqlVerif.Props.C13Dml.values_rows_trailing_comma",
+                             "SqlVerif.Props.C13Dml.insert_columns_trailing_comma", "SqlVerif.Props.C13Dml.names_trailing_comma",
+                             "SqlVerif.Props.C13Dml.columns_trailing_comma", "SqlVerif.Props.C13Dml.columns_trailing_comma_off",
+                             "SqlVerif.Props.C13Dml.columns_loop_is_ad_hoc"]
+PROPS["C13"]["level_text"] += " For the statement fragment (Model/Dml.lean, stream dml, run under C11/C05) the locality assumption is discharged for UPDATE assignments, VALUES rows, INSERT / REFERENCES column lists and name lists (DROP TABLE, DELETE a, b FROM, tuple targets), which are parse_comma_separated lists (trailing-comma and option-inert instances); the column-definition list of CREATE TABLE is proved NOT to be one: parse_columns is an ad-hoc loop that honours the option (columns_trailing_comma / columns_trailing_comma_off, with columnDef_local for `,` `)` `;`) but ignores the end set of is_parse_comma_separated_end (columns_loop_is_ad_hoc: with the option on `CREATE TABLE t (a INT, FROM INT)` has two columns)."
 
 # entries still under construction by a sub-agent are not claimed in MANIFEST.json yet
 for _hold in []:
